@@ -2557,7 +2557,7 @@ func (c *streamableClientConn) handleSSE(ctx context.Context, requestSummary str
 	for {
 		// prevLastEventID is the resumption cursor so far: a body on which no event
 		// arrives must neither forget it nor make the stream look unresumable.
-		lastEventID, reconnectDelay, clientClosed := c.processStreamFrom(ctx, requestSummary, resp, forCall, prevLastEventID)
+		lastEventID, reconnectDelay, delivered, clientClosed := c.processStreamFrom(ctx, requestSummary, resp, forCall, prevLastEventID)
 
 		// If the connection was closed by the client, we're done.
 		if clientClosed {
@@ -2576,6 +2576,12 @@ func (c *streamableClientConn) handleSSE(ctx context.Context, requestSummary str
 			// Progress was made: reset the retry counter.
 			retriesWithoutProgress = 0
 			prevLastEventID = lastEventID
+		} else if lastEventID == "" && delivered {
+			// A server that sends no event IDs (no event store) cannot advance a
+			// cursor, but a body that delivered messages made progress all the same:
+			// a standalone stream that is cut from time to time must not use up the
+			// session's retries over its lifetime.
+			retriesWithoutProgress = 0
 		} else {
 			// No progress: increment the retry counter.
 			retriesWithoutProgress++
@@ -2651,7 +2657,8 @@ func (c *streamableClientConn) checkResponse(ctx context.Context, requestSummary
 // indicating if the connection was closed by the client. If resp is nil, it
 // returns "", false.
 func (c *streamableClientConn) processStream(ctx context.Context, requestSummary string, resp *http.Response, forCall *jsonrpc.Request) (lastEventID string, reconnectDelay time.Duration, clientClosed bool) {
-	return c.processStreamFrom(ctx, requestSummary, resp, forCall, "")
+	lastEventID, reconnectDelay, _, clientClosed = c.processStreamFrom(ctx, requestSummary, resp, forCall, "")
+	return lastEventID, reconnectDelay, clientClosed
 }
 
 // processStreamFrom is processStream for a body that continues a logical
@@ -2659,7 +2666,9 @@ func (c *streamableClientConn) processStream(ctx context.Context, requestSummary
 // that stream ("" for the first body). It is the result if no further event
 // with an ID arrives, so that a body on which nothing arrives neither forgets
 // the resumption cursor nor makes the stream look unresumable.
-func (c *streamableClientConn) processStreamFrom(ctx context.Context, requestSummary string, resp *http.Response, forCall *jsonrpc.Request, resumeID string) (lastEventID string, reconnectDelay time.Duration, clientClosed bool) {
+//
+// delivered reports whether the body handed at least one message to the session.
+func (c *streamableClientConn) processStreamFrom(ctx context.Context, requestSummary string, resp *http.Response, forCall *jsonrpc.Request, resumeID string) (lastEventID string, reconnectDelay time.Duration, delivered, clientClosed bool) {
 	lastEventID = resumeID
 	defer func() {
 		// Drain any remaining unprocessed body. This allows the connection to be re-used after closing.
@@ -2669,14 +2678,14 @@ func (c *streamableClientConn) processStreamFrom(ctx context.Context, requestSum
 	for evt, err := range scanEvents(resp.Body) {
 		if err != nil {
 			if ctx.Err() != nil {
-				return "", 0, true // don't reconnect: client cancelled
+				return "", 0, delivered, true // don't reconnect: client cancelled
 			}
 
 			// Malformed events are hard errors that indicate corrupted data or protocol
 			// violations. These should fail the connection permanently.
 			if errors.Is(err, errMalformedEvent) {
 				c.fail(fmt.Errorf("%s: %v", requestSummary, err))
-				return "", 0, true
+				return "", 0, delivered, true
 			}
 
 			break
@@ -2708,24 +2717,25 @@ func (c *streamableClientConn) processStreamFrom(ctx context.Context, requestSum
 		msg, err := jsonrpc.DecodeMessage(evt.Data)
 		if err != nil {
 			c.fail(fmt.Errorf("%s: failed to decode event: %v", requestSummary, err))
-			return "", 0, true
+			return "", 0, delivered, true
 		}
 
 		select {
 		case c.incoming <- msg:
+			delivered = true
 			// Check if this is the response to our call, which terminates the request.
 			// (it could also be a server->client request or notification).
 			if jsonResp, ok := msg.(*jsonrpc.Response); ok && forCall != nil {
 				// TODO: we should never get a response when forReq is nil (the standalone SSE request).
 				// We should detect this case.
 				if jsonResp.ID == forCall.ID {
-					return "", 0, true
+					return "", 0, delivered, true
 				}
 			}
 
 		case <-c.done:
 			// The connection was closed by the client; exit gracefully.
-			return "", 0, true
+			return "", 0, delivered, true
 		}
 	}
 	// The loop finished without an error, indicating the server closed the stream.
@@ -2745,7 +2755,7 @@ func (c *streamableClientConn) processStreamFrom(ctx context.Context, requestSum
 		case <-c.done:
 		}
 	}
-	return lastEventID, reconnectDelay, false
+	return lastEventID, reconnectDelay, delivered, false
 }
 
 // connectSSE handles the logic of connecting a text/event-stream connection.
